@@ -314,6 +314,21 @@ func (e *SpecEnv) ident(name string) Val {
 			}
 		}
 	}
+	if !(e.locals && e.fx != nil) && e.fn != nil {
+		// captured variables of a closure unit in its requires/ensures (evaluated without locals)
+		for _, fv := range e.fn.FreeVars {
+			if fv.Name() == name {
+				if pv, ok := e.st.Regs[fv]; ok {
+					fxx := e.fx
+					if fxx == nil {
+						fxx = &fnExec{ex: e.ex, fn: e.fn}
+					}
+					mp := fxx.ptrOf(pv, e.st, token.NoPos, false)
+					return fxx.load(e.st, mp)
+				}
+			}
+		}
+	}
 	if p := e.pkg(); p != nil {
 		obj := p.Pkg.Scope().Lookup(name)
 		switch o := obj.(type) {
@@ -873,6 +888,8 @@ func (e *SpecEnv) call(x *SExpr) Val {
 				return intVal(v.C[2])
 			case *types.Array:
 				return Val{Const: big.NewInt(u.Len())}
+			case *types.Map:
+				return intVal(e.ex.mapLen(e.st, u, v.C[0]))
 			}
 			e.fail("len of %v", v.T)
 		case "cap":
@@ -943,6 +960,52 @@ func (e *SpecEnv) call(x *SExpr) Val {
 				bound = ZeroExt(bound, vs[0].W)
 			}
 			return boolVal(Forall([]*Term{k}, Implies(has, BVUle(raw, bound))))
+		case "sameheap":
+			// sameheap(T.f, U.g, ...): every heap key touched so far (fields, slice element rows, cells,
+			// maps, globals) has the value it had in the old state, except the listed type-level fields
+			// (the allocation set may grow). In a callee's postcondition "old" is the state before the call.
+			{
+				except := map[string]bool{}
+				for _, a := range args {
+					loc := e.evalLoc(Clause{Expr: a, Src: "sameheap exception", Line: e.clause})
+					if loc.Kind != "key" {
+						e.fail("sameheap: exceptions must be type-level fields T.f")
+					}
+					for _, k := range loc.Keys {
+						except[k] = true
+					}
+				}
+				keys := map[string]bool{}
+				for k := range e.st.Heap {
+					keys[k] = true
+				}
+				for k := range e.old.Heap {
+					keys[k] = true
+				}
+				var ks []string
+				for k := range keys {
+					if k == allocKey || except[k] {
+						continue
+					}
+					ks = append(ks, k)
+				}
+				sort.Strings(ks)
+				var conj []*Term
+				for _, k := range ks {
+					srt := heapSorts[k]
+					if srt == nil {
+						continue
+					}
+					a, b := e.st.heapGet(k, srt), e.old.heapGet(k, srt)
+					if a != b {
+						conj = append(conj, Eq(a, b))
+					}
+				}
+				if e.st.Epoch != e.old.Epoch {
+					e.fail("sameheap: a whole-heap havoc lies between the two states")
+				}
+				return boolVal(And(conj...))
+			}
 		case "unchanged":
 			cur := e.eval(args[0])
 			saved, savedIn := e.st, e.inOld
